@@ -368,11 +368,12 @@ Definition next (sp : spec) (t : Z) : option Z :=
 Definition next_naive (sp : spec) (t : Z) : option Z :=
   match next_naive_local sp (t + 60 * s_off sp) with Some m => Some (m - s_off sp) | None => None end.
 
-(* the zero time.Time{} (0001-01-01T00:00:00Z) in unix minutes; what a failed search compares as *)
+(* the zero time.Time{} (0001-01-01T00:00:00Z) in unix minutes: what a start time of "-" parses to *)
 Definition zero_minute : Z := -1035593280.
-Definition next_time (sp : spec) (t : Z) : Z := match next sp t with Some m => m | None => zero_minute end.
 
-(* scheduler.go:176,186: Read(now - 1s), invoked iff not Next.After(now); m = the tick, a unix minute *)
-Definition due (sp : spec) (m : Z) : bool := next_time sp (60 * m - 1) <=? m.
+(* scheduler.go run(now): Read(now - 1s); an entry whose Next is the zero time (no activation within the horizon)
+   is skipped; otherwise it is invoked iff not Next.After(now); m = the tick, a unix minute *)
+Definition due (sp : spec) (m : Z) : bool :=
+  match next sp (60 * m - 1) with Some n => n <=? m | None => false end.
 
 Definition cls {A} (p : pres A) : nat := match p with PPanic => 2%nat | PErr => 1%nat | POk _ => 0%nat end.
